@@ -98,6 +98,109 @@ def repo_tests(ctx, mode, tests):
         rec.skip(k, "x%d" % n)
 
 
+def utilities(ctx, rng, xr):
+    """The public helper functions of wavespectra.core.utils called directly with caller-owned objects (DataArray and
+    Dataset spectra, plain ndarrays with and without missing bins, forcing arrays)."""
+    from wavespectra.core import utils
+    rec = ctx.rec
+    nf, nd = int(rng.choice([4, 7, 11])), int(rng.choice([8, 12, 24]))
+    f = np.linspace(0.05, 0.4, nf) if rng.random() < 0.5 else 0.04 * 1.15 ** np.arange(nf)
+    th = np.arange(nd) * (360.0 / nd)
+    lnames, lsizes = gen.lead_dims(rng, nlead=int(rng.choice([0, 1, 2])), maxsize=3)
+    A, _ = gen.stack_spectra(rng, f, th, lsizes, cls="multimodal")
+    da = gen.make_da(A, f, th, lnames, lsizes)
+    back = str(rng.choice(["numpy", "view", "dask"]))
+    buf = None
+    if back == "view":
+        buf = np.zeros((2,) + da.shape)
+        buf[1] = da.values
+        da = da.copy(data=buf[1])
+    elif back == "dask":
+        da = da.chunk({d_: 1 for d_ in lnames[:1]})
+    ds = da.to_dataset(name="efth")
+    ds.attrs["title"] = "caller's dataset"
+    which = str(rng.choice(["scaled", "scaled", "interp_spec", "interp_spec", "regrid_spec", "smooth_spec", "winds", "dispersion", "unique_times", "waveage"]))
+    args = {"da": da, "ds": ds}
+    if buf is not None:
+        args["buffer"] = buf
+    if which == "scaled":
+        obj = ds if rng.random() < 0.5 else da
+        hs = float(rng.uniform(0.5, 4)) if rng.random() < 0.5 or not lnames else xr.DataArray(rng.uniform(0.5, 4, lsizes), dims=lnames, coords={n_: da[n_] for n_ in lnames})
+        args["hs"] = hs
+        key = "scaled|%s|%s|hs=%s" % ("Dataset" if obj is ds else "DataArray", back, type(hs).__name__)
+
+        def fn():
+            r = utils.scaled(obj, hs)
+            return r.compute() if hasattr(r, "compute") else r
+    elif which == "interp_spec":
+        E = np.array(gen.spectrum(rng, f, th, "multimodal")[0])
+        holes = str(rng.choice(["none", "nan", "inf"]))
+        if holes != "none":
+            E[rng.random(E.shape) < 0.1] = np.nan if holes == "nan" else np.inf
+        if rng.random() < 0.3:
+            big = np.zeros((nf + 2, nd)); big[1:-1] = E; E = big[1:-1]          # a view of a caller-owned buffer
+            args["interp_buffer"] = big
+        branch = str(rng.choice(["same", "freq_only", "dir_changed", "both"]))
+        of = f if branch in ("same", "dir_changed") else np.linspace(f[0], f[-1], nf + 3)
+        od = th if branch in ("same", "freq_only") else np.arange(0.0, 360.0, float(rng.choice([10.0, 20.0, 45.0])))
+        infreq, indir, of, od = f.copy(), th.copy(), np.array(of), np.array(od)
+        args.update(inspec=E, infreq=infreq, indir=indir, outfreq=of, outdir=od)
+        key = "interp_spec|%s|holes=%s" % (branch, holes)
+
+        def fn():
+            return utils.interp_spec(E, infreq, indir, of, od)
+    elif which == "regrid_spec":
+        obj = ds if rng.random() < 0.5 else da
+        nfq, ndr = np.linspace(f[0] * 0.8, f[-1] * 1.1, nf + 2), np.arange(0.0, 360.0, 30.0)
+        args.update(freq=nfq, dir=ndr)
+        key = "regrid_spec|%s|%s" % ("Dataset" if obj is ds else "DataArray", back)
+
+        def fn():
+            r = utils.regrid_spec(obj, freq=nfq, dir=ndr)
+            return r.compute() if hasattr(r, "compute") else r
+    elif which == "smooth_spec":
+        key = "smooth_spec|%s" % back
+
+        def fn():
+            r = utils.smooth_spec(da, 3, 3)
+            return r.compute() if hasattr(r, "compute") else r
+    elif which == "winds":
+        u, v = rng.uniform(-20, 20, (3, 4)), rng.uniform(-20, 20, (3, 4))
+        if rng.random() < 0.5:
+            u, v = xr.DataArray(u, dims=["time", "site"]), xr.DataArray(v, dims=["time", "site"])
+        cf = bool(rng.random() < 0.5)
+        args.update(u=u, v=v)
+        key = "uv_to_spddir+spddir_to_uv|%s|coming_from=%s" % (type(u).__name__, cf)
+
+        def fn():
+            s_, d_ = utils.uv_to_spddir(u, v, coming_from=cf)
+            return utils.spddir_to_uv(s_, d_, coming_from=cf)
+    elif which == "dispersion":
+        fr = da.freq if rng.random() < 0.5 else f.copy()
+        dep = float(rng.uniform(2, 300)) if rng.random() < 0.5 else xr.DataArray(rng.uniform(2, 300, 3), dims=["site"])
+        args.update(freq=fr, depth=dep)
+        key = "wavenuma+celerity+wavelen|freq=%s|depth=%s" % (type(fr).__name__, type(dep).__name__)
+
+        def fn():
+            return utils.wavenuma(fr, dep), utils.celerity(fr, dep), utils.wavelen(fr, dep), utils.celerity(fr), utils.wavelen(fr)
+    elif which == "waveage":
+        wspd, wdir, dpt = xr.DataArray(rng.uniform(0, 25, 3), dims=["site"]), xr.DataArray(rng.uniform(0, 360, 3), dims=["site"]), xr.DataArray(rng.uniform(5, 200, 3), dims=["site"])
+        args.update(wspd=wspd, wdir=wdir, dpt=dpt, freq=da.freq, dir=da.dir)
+        key = "waveage"
+
+        def fn():
+            return utils.waveage(da.freq, da.dir, wspd, wdir, dpt, 1.7)
+    else:
+        t_ = np.array(["2020-01-01T00", "2020-01-01T01", "2020-01-01T01", "2020-01-01T02"], dtype="datetime64[ns]")
+        dst = xr.Dataset({"efth": (("time", "freq", "dir"), rng.random((4, nf, nd)))}, coords={"time": t_, "freq": f, "dir": th})
+        args = {"ds_with_duplicate_times": dst}
+        key = "unique_times"
+
+        def fn():
+            return utils.unique_times(dst)
+    pure(rec, "utility:" + which, key, fn, args)
+
+
 def run(ctx):
     import xarray as xr
     import wavespectra
@@ -125,6 +228,9 @@ def run(ctx):
         for i, rng in ctx.cases("tracking", ctx.n(48, 1000)):
             FAULT["rng"] = rng
             tracking(ctx, rng, xr)
+        for i, rng in ctx.cases("utilities", ctx.n(240, 5000)):
+            FAULT["rng"] = rng
+            utilities(ctx, rng, xr)
         for i, rng in ctx.cases("writers", ctx.n(160, 4000)):
             d = tempfile.mkdtemp(dir=tmp)
             FAULT["rng"] = rng
